@@ -346,7 +346,9 @@ impl IndexManager {
             segment_bits: header_v2.file_offset_bits,
         };
 
-        let entry_size = (header.key_size + header.location_size + header.length_size) as usize;
+        // Sum in usize: the three u8 fields can add up to more than 255
+        let entry_size =
+            header.key_size as usize + header.location_size as usize + header.length_size as usize;
         Ok((header, entry_size))
     }
 
@@ -370,6 +372,12 @@ impl IndexManager {
 
         // Read entry data (limited to block_size for safety)
         let entry_data_size = entry_block.block_size as usize;
+        let file_len = reader.get_ref().metadata().map_or(0, |m| m.len());
+        if entry_data_size as u64 > file_len {
+            return Err(StorageError::Index(format!(
+                "Entry block of {entry_data_size} bytes in a file of {file_len} bytes"
+            )));
+        }
         let mut entry_data = vec![0u8; entry_data_size];
         reader
             .read_exact(&mut entry_data)
